@@ -330,7 +330,8 @@ def wiring(F, R):
         sp = f.d.get('sp', '')
         # who may wire: constructors only.  Assignment reaches nested submachines through the same operator=, so wiring there makes
         # every nested machine its own container (exit points forward to the submachine itself, which then reports no_transition)
-        if not (sp and 'ctor' in sp):
+        from rules_rtc import only_called_from_pred
+        if not (sp and 'ctor' in sp) and not only_called_from_pred(F, f, lambda g: 'ctor' in (g.d.get('sp') or '')):
             for i, n in f.calls():
                 if n.get('n') == 'fill_states' and n.get('pc') == 'state_machine':
                     R.seen(f); R.anchor('wiring-outside-ctor:' + backend_of(f))
